@@ -188,6 +188,17 @@ def run_campaign(run, name, budget, seed, focus_prop, exhaustive_tour=False, mc=
         gens = [tours.tours(init, adj, rng, max_len=60)]
     else:
         gens = [tours.tours(init, adj, rng, max_len=60, select=sel, max_edges=cap) for sel, cap in focus_for(focus_prop, budget)]
+        # whatever the focus: every accepted mutation as the FIRST call on every kind of initial file
+        # (holes, foreign blocks, table order # storage order, unused slots, trailing garbage)
+        fresh = set()
+        for d0, l0 in adj.get(init, ()):
+            if l0.startswith("Setup"):
+                for d1, l1 in adj.get(d0, ()):
+                    if "allow_write" in l1:
+                        fresh.update(d2 for d2, l2 in adj.get(d1, ()) if l2.startswith("Enter"))
+        if fresh:
+            gens.append(tours.tours(init, adj, rng, max_len=8,
+                                    select=lambda s_, d_, lab: s_ in fresh and lab.startswith(("Ok(", "SetOk("))))
     k = 0
     for g in gens:
         for labs in g:
